@@ -27,20 +27,25 @@ def tx_open(duck_conn) -> bool:
 
 
 def session_state(conn, with_tx: bool = False):
-    d = conn._duck_conn
+    """Per-session ground truth. Internal attributes are read defensively: if a behaviour-preserving refactoring
+    renames one of them the component degrades to None instead of failing the check."""
+    d = getattr(conn, "_duck_conn", None)
     d = getattr(d, "_r", d)
-    try:
-        cd = d.execute("select current_database(), current_schema()").fetchall()[0]
-    except duckdb.Error as e:  # closed connection etc.
-        cd = ("<err>", type(e).__name__)
+    cd = None
+    if d is not None:
+        try:
+            cd = d.execute("select current_database(), current_schema()").fetchall()[0]
+        except duckdb.Error as e:  # closed connection etc.
+            cd = ("<err>", type(e).__name__)
+    variables = getattr(getattr(conn, "variables", None), "_variables", None)
     return (
-        conn.database,
-        conn.schema,
-        conn.database_set,
-        conn.schema_set,
+        getattr(conn, "database", None),
+        getattr(conn, "schema", None),
+        getattr(conn, "database_set", None),
+        getattr(conn, "schema_set", None),
         cd,
-        tuple(sorted(conn.variables._variables.items())),
-        tx_open(d) if with_tx and cd[0] != "<err>" else None,
+        tuple(sorted(variables.items())) if isinstance(variables, dict) else None,
+        tx_open(d) if with_tx and d is not None and cd and cd[0] != "<err>" else None,
     )
 
 
